@@ -932,6 +932,10 @@ func (vc *VC) applySpecFunc(env *Env, sf *SpecFunc, args []SExpr) (Term, types.T
 		for _, a := range ats {
 			cur = Select(cur, a)
 		}
+		if env.facts != nil {
+			// values of ghost functions are well-formed values of their Go type
+			*env.facts = append(*env.facts, vc.wfAssume(env.st, cur, rt, 0))
+		}
 		return cur, rt
 	}
 	var sorts []Sort
@@ -940,7 +944,13 @@ func (vc *VC) applySpecFunc(env *Env, sf *SpecFunc, args []SExpr) (Term, types.T
 	}
 	fname := "spec$" + sf.Name
 	vc.q.DeclareFun(fname, sorts, rs)
-	return App(rs, fname, ats...), rt
+	res := App(rs, fname, ats...)
+	if env.facts != nil {
+		if _, isInt := intInfoOf(rt); isInt {
+			*env.facts = append(*env.facts, vc.wfAssume(env.st, res, rt, 0))
+		}
+	}
+	return res, rt
 }
 
 // ---------- contract application at call sites ----------
